@@ -167,6 +167,25 @@ def run(ctx):
         violations.extend(mut)
     corr_scns = corr_scns[: (700 if ctx.quick else 8000)]
     impls, models, mism, stats = cp.correspondence(ctx, corr_scns, "Cases_C08")
+    # round 3: derivatives / wrappers made BEFORE a registration on their base, evaluated after it (generated after the
+    # older streams, which therefore stay as they were)
+    late = []
+    for _ in range(150 if ctx.quick else 1800):
+        for c in late_cases(rng):
+            v, obs, k = check_late(c)
+            checks += k
+            kinds[c["kind"]] = kinds.get(c["kind"], 0) + k
+            for mu in c["hist"] + c["pre"]:
+                kinds["late:" + mu[1][0]] = kinds.get("late:" + mu[1][0], 0) + 1
+            if c["eval_before"]:
+                kinds["late:evaluated before and after"] = kinds.get("late:evaluated before and after", 0) + 1
+            violations.extend(v)
+            late.append((c, obs))
+    # ... and the model on the state AT the evaluation (everything registered): Model/Derived.v's derivative of the base record
+    # as it is then must give the results the implementation gives after the history (results only; the model has no histories)
+    late_mism, late_ops = late_correspondence(ctx, late, "Cases_C08_late")
+    mism.extend(late_mism)
+    stats["late_history_ops"] = late_ops
     return {
         "evaluations": checks + stats["ops"],
         "distinct_nontrivial": len(distinct),
@@ -174,9 +193,12 @@ def run(ctx):
                 "definitions with options=/default_options= plus with_options/with_default_options derivatives, with P, D, o overlapping inside one "
                 "section; each compared (evaluate and validate) with the plain object under a dictionary overlaid by an independent 8-line merge; "
                 "non-trivial = caller dictionary non-empty and the evaluation succeeds; distinct by hash of (scenario, dictionary, object). "
+                "Histories: derivatives (with_options / with_default_options chains, WithOptions wrappers) made BEFORE an overload is registered on their "
+                "base (register, @overload on a function / a dataset / a list alias, an implementation class of an interface the base is a member of), "
+                "with value-neutral mutators interleaved, evaluated after it and compared with the plain base described with everything registered. "
                 "Mutation: deep snapshots of the caller's dictionary and of every pre-set dictionary around evaluate/validate/keys/explain.",
         "samples": [dict(kind=c["kind"], options=repr(c["o"]), overlaid=repr(c["eff"])) for c in (cases(ctx.rng)[0][:3])],
-        "traces_validated_against_impl": stats["ops"],
+        "traces_validated_against_impl": stats["ops"] + late_ops,
         "correspondence_mismatches": mism[:5],
         "violations": violations,
         "known": known_findings(),
@@ -185,6 +207,254 @@ def run(ctx):
         "assumptions": ["the model is pure: 'inputs never mutated' is decided on the implementation by deep snapshots (runtime part, partial)"],
         "trusted_base": ["confectioner.mix is modelled (Base.mix) and validated by the correspondence; the oracle's overlay is an independent re-implementation of the property text"],
     }
+
+
+# ----------------------------------------------------------------------------- round 3: a history between derivation and evaluation
+# y = x.with_options(P) / x.with_default_options(D) / chains of both / WithOptions(x, P) wrappers are made FIRST; then x is
+# changed through its public mutators (an overload registered by x.register, @x.overload on a function or on a dataset, a
+# list alias, an implementation class of an interface x is a member of; value-neutral ones interleaved: add_effects,
+# disable/enable_effects, set_cache, further derivatives); then y is evaluated / validated.  The property speaks about
+# "evaluating X under o overlaid by P": X is the object as it is when the evaluation happens, so y must give what the plain
+# x, described WITH everything registered so far, gives under the independently overlaid dictionary.
+
+LATE_KEYS = [gen.K(10), gen.K(11), gen.K(12), gen.K(gen.SEC, gen.SX), gen.K(gen.SEC, gen.SY), gen.K(*gen.DEEP)]
+NEUTRAL = ["add_effects", "disable_effects", "enable_effects", "set_cache_mem", "set_cache_none", "sibling_with_options",
+           "sibling_with_default_options"]
+
+
+def at_key(k, v):
+    """the dictionary holding v under the dotted key k"""
+    out = v
+    for seg in reversed(k):
+        out = {seg[1]: out}
+    return out
+
+
+def late_cases(rng):
+    g = gen.Gen(rng, with_presets=False, with_effects=True, with_alloptions=False, max_ds=3)
+    base = g.scenario(n_exprs=1, depth=2, n_ops=0)
+    pool = g.dict_pool()
+    env = dict(base["env"])
+    i = rng.choice(sorted(env))
+    n = max(env) + 1
+    d0 = dict(env[i])
+    dk = rng.choice(LATE_KEYS)
+    d0["dispatch"] = ("option", dk, ("value", ("j", rng.choice(gen.DISPATCH_VALS))) if rng.random() < 0.25 else None, None)
+    vals = list(gen.DISPATCH_VALS)
+    rng.shuffle(vals)
+    early = [(("j", v), g.leaf()) for v in vals[:rng.choice([0, 0, 1])]]
+    d0["overloads"] = early
+    d0.pop("abstract", None)
+    if rng.random() < 0.2:
+        d0["abstract"] = True
+    d0["cache"] = "none" if rng.random() < 0.5 else "mem"
+    P0, D0 = (gen.rand_preset(rng) if rng.random() < 0.4 else {}), (gen.rand_preset(rng) if rng.random() < 0.4 else {})
+    if P0:
+        d0["options"] = P0
+    if D0:
+        d0["default_options"] = D0
+    # the registrations made after the derivatives exist
+    late, muts = [], []
+    start = len(early) - 1 if (early and rng.random() < 0.3) else len(early)      # sometimes an early alias is registered again
+    for a in vals[start:start + rng.choice([1, 1, 2])]:
+        form = rng.choice(["register", "register", "overload_fn", "overload_fn", "overload_ds", "implements"])
+        if form == "implements" and a is None:
+            form = "register"       # @implements needs an alias
+        if form == "overload_ds":
+            m = rng.choice(sorted(env))
+            muts.append((("overload_ds", [a], m, rng.random() < 0.3), [(("j", a), ("dataset", m))]))
+        elif form == "overload_fn":
+            m = n + 20 + len(muts)
+            env[m] = dict(fid=g.body_fid(), kwargs=[g.leaf() for _ in range(rng.randint(0, 2))])
+            als = [a] + ([x for x in vals if x != a][:1] if rng.random() < 0.3 else [])
+            muts.append((("overload_fn", als, m, len(als) > 1 or rng.random() < 0.3), [(("j", a2), ("dataset", m)) for a2 in als]))
+        else:
+            impl = rng.choice([g.leaf(), ("call", g.body_fid(), [g.leaf() for _ in range(rng.randint(0, 2))])])
+            muts.append(((form, a, impl), [(("j", a), impl)]))
+    rng.shuffle(muts)
+    late = [e for _, es in muts for e in es]      # in the order the history performs them: the last registration of an alias wins
+    muts = [mu for mu, _ in muts]
+    iface = any(mu[0] == "implements" for mu in muts)
+    noise = [(rng.choice(NEUTRAL), gen.rand_preset(rng)) for _ in range(rng.choice([0, 0, 1, 2]))]
+    hist = [("mut", mu) for mu in muts]
+    for x in noise:
+        hist.insert(rng.randint(0, len(hist)), ("noise", x))
+    pre = [("noise", (rng.choice(NEUTRAL[:5] + ["set_dispatch_same"]), {})) for _ in range(rng.choice([0, 0, 1]))]
+    # the derivation chain: 1-3 dataset derivatives, then 0-2 wrapper combinators around the last one
+    steps = [(rng.choice(["with_options", "with_default_options"]), gen.rand_preset(rng)) for _ in range(rng.choice([1, 1, 2, 3]))]
+    wraps = [(rng.random() < 0.5, gen.rand_preset(rng)) for _ in range(rng.choice([0, 0, 0, 1, 2]))]
+    a_sel = late[0][0][1]
+    if rng.random() < 0.7:      # a layer of the chain itself selects a late overload (else the caller / another layer may)
+        j = rng.randrange(len(steps))
+        steps[j] = (steps[j][0], overlay(steps[j][1], at_key(dk, a_sel)))
+    env_before = dict(env)
+    env_before[n] = dict(d0)
+    env_after = dict(env)
+    env_after[n] = dict(d0, overloads=early + late)
+    cur = n
+    for j, (how, p) in enumerate(steps):
+        env_after[n + 1 + j] = dict(derived=cur, how=how, preset=p)
+        env_before[n + 1 + j] = dict(derived=cur, how=how, preset=p)
+        cur = n + 1 + j
+    env_after[n + 10] = plain(env_after[n])
+    env_before[n + 10] = plain(env_before[n])
+    yexpr = ("dataset", cur)
+    for f, p in wraps:
+        yexpr = ("with", f, p, yexpr)
+    ft = dict(g.ftable)
+    out = []
+    os_ = rng.sample(pool, min(2, len(pool)))
+    if rng.random() < 0.6:
+        os_.append(overlay(rng.choice(pool), at_key(dk, a_sel)))      # the caller's dictionary selects the late overload
+    for o in os_:
+        o = dict(o)
+        eff = o
+        for f, p in reversed(wraps):          # outermost wrapper first
+            eff = overlay(eff, p) if f else overlay(p, eff)
+        Pacc, Dacc = P0, D0
+        for how, p in steps:
+            if how == "with_options":
+                Pacc = overlay(Pacc, p)
+            else:
+                Dacc = overlay(Dacc, p)
+        eff = overlay(overlay(Dacc, eff), Pacc)
+        out.append(dict(kind="derivative made before a registration on its base", ftable=ft, env_before=env_before, env_after=env_after,
+                        x=n, steps=steps, wraps=wraps, pre=pre, hist=hist, iface=iface, yexpr=yexpr, plain_idx=n + 10,
+                        o=o, eff=eff, eval_before=d0["cache"] == "none" and rng.random() < 0.5))
+    return out
+
+
+def run_late(c):
+    """drive the history on the implementation (public API only); returns the observations
+    {'before': [evaluate], 'after': [evaluate, validate]} as (canonical result, raw value) pairs"""
+    import labrea
+    from labrea.cache import MemoryCache, NoCache
+    n = c["x"]
+    scn0 = dict(ftable=c["ftable"], env=c["env_before"], exprs=[("dataset", n)], ops=[])
+    _, objs, w, b = core.run_impl(scn0, want_objects=True)
+    x = objs[0]
+    keep = []
+
+    def neutral(kind, p):
+        if kind == "add_effects":
+            def eff(v):
+                w.calls.append("late-effect")
+            keep.append(eff)
+            x.add_effects(eff)
+        elif kind == "disable_effects":
+            x.disable_effects()
+        elif kind == "enable_effects":
+            x.enable_effects()
+        elif kind == "set_cache_mem":
+            x.set_cache(MemoryCache())
+        elif kind == "set_cache_none":
+            x.set_cache(NoCache())
+        elif kind == "set_dispatch_same":      # (only before the derivatives are made: they share the registry x has THEN)
+            x.set_dispatch(b.build(c["env_before"][n]["dispatch"]))
+        elif kind == "sibling_with_options":
+            keep.append(x.with_options(core.py_json(p)))
+        elif kind == "sibling_with_default_options":
+            keep.append(x.with_default_options(core.py_json(p)))
+
+    for _, (kind, p) in c["pre"]:
+        if not (kind.startswith("set_cache") and c["env_before"][n].get("cache") == "none" and c["eval_before"]):
+            neutral(kind, p)
+        # (a cache given to an uncached x before the first evaluation would store it: then the later registration
+        #  legitimately does not apply to that dictionary any more)
+    I = None
+    if c["iface"]:
+        I = labrea.interface(b.build(c["env_before"][n]["dispatch"]))(type("LateIface", (), {"m": x}))
+        assert I.m is x
+    y = x
+    for how, p in c["steps"]:
+        y = y.with_options(core.py_json(p)) if how == "with_options" else y.with_default_options(core.py_json(p))
+    for f, p in c["wraps"]:                   # the last one is the outermost
+        y = labrea.WithOptions(y, core.py_json(p), force=f)
+
+    def observe(meth):
+        po = core.py_json(c["o"])
+        try:
+            if meth == "evaluate":
+                raw = core.force(y.evaluate(po))
+                return core.canon_names("ok:" + core.show(raw)), raw
+            y.validate(po)
+            return "ok:()", None
+        except RecursionError:
+            return "err:fuel:F", None
+        except Exception as exc:  # noqa
+            cause, ee = core.classify(exc)
+            return core.canon_names(f"err:{cause}:{'T' if ee else 'F'}"), None
+
+    obs = dict(before=[], after=[])
+    if c["eval_before"]:
+        obs["before"].append(observe("evaluate"))
+    for what, mu in c["hist"]:
+        if what == "noise":
+            if mu[0].startswith("set_cache") and c["eval_before"]:
+                continue
+            neutral(*mu)
+        elif mu[0] == "register":
+            x.register(core.py_value(("j", mu[1])), b.build(mu[2]))
+        elif mu[0] == "implements":
+            labrea.implements(I, alias=core.py_value(("j", mu[1])))(type("LateImpl", (), {"m": b.build(mu[2])}))
+        elif mu[0] == "overload_ds":
+            als = [core.py_value(("j", a)) for a in mu[1]]
+            x.overload(als if mu[3] else als[0])(b.dataset(mu[2]))
+        elif mu[0] == "overload_fn":
+            d = c["env_after"][mu[2]]
+            f = w.kwfn(d["fid"], len(d["kwargs"]))
+            f.__defaults__ = tuple(b.build(e) for e in d["kwargs"])       # def f(a0=<Evaluatable>, ...): the decorator reads the signature
+            f.__name__ = f.__qualname__ = f"ds{mu[2]}"
+            als = [core.py_value(("j", a)) for a in mu[1]]
+            x.overload(als if mu[3] else als[0])(f)
+    obs["after"] = [observe("evaluate"), observe("validate")]
+    return obs
+
+
+def check_late(c):
+    """the oracle on one case; returns (violations, observations, checks)"""
+    out = []
+    obs = run_late(c)
+    checks = 0
+    stages = [("after", "env_after", ("evaluate", "validate"))]
+    if c["eval_before"]:
+        stages.insert(0, ("before", "env_before", ("evaluate",)))
+    for stage, envk, meths in stages:
+        scn = dict(ftable=c["ftable"], env=c[envk], exprs=[("dataset", c["plain_idx"])])
+        for meth, (line, raw) in zip(meths, obs[stage]):
+            b = cp.fresh_eval(scn, 0, c["eff"], method=meth, disabled=False, raw=True)
+            checks += 1
+            if not cp.same_outcome(line + "|", raw, b[0], b[1]):
+                out.append(dict(desc=f"{c['kind']}: {meth} of the derivative ({'after' if stage == 'after' else 'before'} the registration) differs from {meth} of the "
+                                     "plain object, as it is at that moment, under the independently overlaid dictionary",
+                                stage=stage, lhs=cp.outcome(line + "|"), rhs=cp.outcome(b[0]), options=repr(c["o"]), overlaid=repr(c["eff"]),
+                                history=repr([("derive", c["steps"], c["wraps"])] + c["hist"]), finding=None, late_case=cp.dump_scn(c)))
+                return out, obs, checks
+    return out, obs, checks
+
+
+def late_correspondence(ctx, late, name):
+    """model (static description of the state at the evaluation) vs the implementation's results after the history"""
+    mism, ops = [], 0
+    louts = ctx.coq_eval(name, cp.REQ, "", [core.coq_scenario(late_scenario(c)) for c, _ in late], shard=30) if late else []
+    for (c, obs), lo in zip(late, louts):
+        ls = late_scenario(c)
+        multi = cp._multi_ref(ls["exprs"]) or cp._multi_ref(ls["env"]) or cp._multi_ref([c["o"]])
+        for meth, (line, _), ml in zip(("evaluate", "validate"), obs["after"], lo.split(" ## ")):
+            ops += 1
+            if not cp.same(line + "|" + cp.strip_ghost(ml).partition("|")[2], ml, multi):
+                mism.append(dict(where="Model/Derived.v (derivative of the base record as it is at the evaluation) vs labrea (derivative made before the registration)",
+                                 method=meth, impl=line, model=cp.split(cp.strip_ghost(ml))[0], late_case=cp.dump_scn(c)))
+                break
+            if "unmod" in ml:
+                break
+    return mism, ops
+
+
+def late_scenario(c):
+    """the static description of the state at the evaluation (for the model): everything registered, y, the two methods"""
+    return dict(ftable=c["ftable"], env=c["env_after"], exprs=[c["yexpr"]],
+                ops=[("evaluate", 0, False, False, c["o"]), ("validate", 0, False, False, c["o"])])
 
 
 def same_dict_object_check(scn, idx, dicts):
@@ -283,6 +553,18 @@ def mutation_check(scn):
 
 
 def replay(ctx, payload):
+    if "late_case" in payload:
+        c = cp.load_scn(payload["late_case"])
+        v, obs, _ = check_late(c)
+        mm, _ = late_correspondence(ctx, [(c, obs)], "Replay_C08_late")
+        return bool(v) or bool(mm), dict(observed={k: [x[0] for x in xs] for k, xs in obs.items()},
+                                         violations=[{k: x[k] for k in ("desc", "stage", "lhs", "rhs")} for x in v],
+                                         model_mismatch=[{k: x[k] for k in ("method", "impl", "model")} for x in mm])
+    if "scenario_repr" not in payload:
+        for b in payload.get("broken", []):
+            if isinstance(b, dict) and b.get("late_case"):
+                return replay(ctx, b)
+        return True, {"note": "payload carries no scenario (a proof obligation or the build broke); re-run the check"}
     scn = cp.load_scn(payload["scenario_repr"])
     detail = {}
     still = False
